@@ -197,6 +197,26 @@ impl Blob
         );
     }
 
+    /*  Takes the resolutions just obtained for the files in this blob (same order).  A file that was not already
+        correct has been replaced: what is at its path now is another file than the one the remembered FileState
+        describes, possibly with the very same modified date.  Forget the remembered state of those files, so that
+        the timestamp optimization does not vouch for a file it has never seen. */
+    pub fn forget_replaced_file_states
+    (
+        self : &mut Self,
+        resolutions : &Vec<FileResolution>
+    )
+    {
+        for (i, info) in self.file_infos.iter_mut().enumerate()
+        {
+            match resolutions.get(i)
+            {
+                Some(FileResolution::AlreadyCorrect) => {},
+                _ => info.file_state = FileState::empty(),
+            }
+        }
+    }
+
     pub fn get_file_infos
     (
         self : &Self
